@@ -19,5 +19,9 @@ import Proofs.Gen
 #print axioms Xsel.C02.filter_docorder
 #print axioms Xsel.C02.filter_docorder_list
 #print axioms Xsel.C02.filter_order_irrelevant
+#print axioms Xsel.C02.exec_refines_spec'
+#print axioms Xsel.C02.run_refines_spec'
+#print axioms Xsel.C02.semKF_eq_sem_of_noRound
+#print axioms Xsel.C02.run_refines_spec_noRound
 #print axioms Xsel.Gen.no_dropped_symbol
 #print axioms Xsel.Gen.handlers_agree
